@@ -29,7 +29,11 @@ type DryStat struct {
 // DryRun runs the scenario on a healthy connection.
 func DryRun(sc *Scenario) (st DryStat) {
 	st.Name = sc.Name
-	s, err := sc.New(devsim.Config{Seg: devsim.Seg{Mode: "fixed", Size: 16, Seed: 1}}, 10*time.Second)
+	seg := devsim.Seg{Mode: "fixed", Size: 16, Seed: 1}
+	if sc.Seg != nil {
+		seg = *sc.Seg
+	}
+	s, err := sc.New(devsim.Config{Seg: seg}, 10*time.Second)
 	if err != nil {
 		st.Err = "new: " + err.Error()
 		return
